@@ -102,6 +102,9 @@ func (fd *Client) setFailureCondition(condition FailureCondition) {
 
 // SetInterpreter assigns a native interpreter
 func (fd *Client) SetInterpreter(i interpreter.Interpreter) {
+	fd.mu.Lock()
+	defer fd.mu.Unlock()
+
 	native, ok := i.(*interpreter.Native)
 	if !ok {
 		panic("invalid interpreter type")
@@ -116,11 +119,17 @@ func (fd *Client) SetInterpreter(i interpreter.Interpreter) {
 
 // GetNativeInterpreter returns native interpreter
 func (fd *Client) GetNativeInterpreter() *interpreter.Native {
+	fd.mu.Lock()
+	defer fd.mu.Unlock()
+
 	return fd.nativeInterpreter
 }
 
 // CreateTable creates a new table
 func (fd *Client) CreateTable(ctx context.Context, input *dynamodb.CreateTableInput, opt ...func(*dynamodb.Options)) (*dynamodb.CreateTableOutput, error) {
+	fd.mu.Lock()
+	defer fd.mu.Unlock()
+
 	tableName := aws.ToString(input.TableName)
 	if _, ok := fd.tables[tableName]; ok {
 		return nil, &types.ResourceInUseException{Message: aws.String("Cannot create preexisting table")}
@@ -154,6 +163,9 @@ func (fd *Client) CreateTable(ctx context.Context, input *dynamodb.CreateTableIn
 
 // DeleteTable deletes a table
 func (fd *Client) DeleteTable(ctx context.Context, input *dynamodb.DeleteTableInput, opt ...func(*dynamodb.Options)) (*dynamodb.DeleteTableOutput, error) {
+	fd.mu.Lock()
+	defer fd.mu.Unlock()
+
 	tableName := aws.ToString(input.TableName)
 
 	table, err := fd.getTable(tableName)
@@ -172,6 +184,9 @@ func (fd *Client) DeleteTable(ctx context.Context, input *dynamodb.DeleteTableIn
 
 // UpdateTable update a table
 func (fd *Client) UpdateTable(ctx context.Context, input *dynamodb.UpdateTableInput, opts ...func(*dynamodb.Options)) (*dynamodb.UpdateTableOutput, error) {
+	fd.mu.Lock()
+	defer fd.mu.Unlock()
+
 	tableName := aws.ToString(input.TableName)
 
 	table, ok := fd.tables[tableName]
@@ -198,6 +213,9 @@ func (fd *Client) UpdateTable(ctx context.Context, input *dynamodb.UpdateTableIn
 
 // DescribeTable returns information about the table
 func (fd *Client) DescribeTable(ctx context.Context, input *dynamodb.DescribeTableInput, ops ...func(*dynamodb.Options)) (*dynamodb.DescribeTableOutput, error) {
+	fd.mu.Lock()
+	defer fd.mu.Unlock()
+
 	tableName := aws.ToString(input.TableName)
 
 	table, err := fd.getTable(tableName)
@@ -422,6 +440,9 @@ func (fd *Client) Scan(ctx context.Context, input *dynamodb.ScanInput, opt ...fu
 
 // SetItemCollectionMetrics set the value of the property itemCollectionMetrics
 func (fd *Client) setItemCollectionMetrics(itemCollectionMetrics map[string][]types.ItemCollectionMetrics) {
+	fd.mu.Lock()
+	defer fd.mu.Unlock()
+
 	fd.itemCollectionMetrics = itemCollectionMetrics
 }
 
@@ -456,14 +477,14 @@ func (fd *Client) BatchWriteItem(ctx context.Context, input *dynamodb.BatchWrite
 
 	return &dynamodb.BatchWriteItemOutput{
 		UnprocessedItems:      unprocessed,
-		ItemCollectionMetrics: fd.itemCollectionMetrics,
+		ItemCollectionMetrics: fd.getItemCollectionMetrics(),
 	}, nil
 }
 
 // BatchGetItem mock response for dynamodb
 func (fd *Client) BatchGetItem(ctx context.Context, input *dynamodb.BatchGetItemInput, opts ...func(*dynamodb.Options)) (*dynamodb.BatchGetItemOutput, error) {
-	if fd.forceFailureErr != nil {
-		return nil, fd.forceFailureErr
+	if err := fd.failureErr(); err != nil {
+		return nil, err
 	}
 
 	responses := make(map[string][]map[string]types.AttributeValue, len(input.RequestItems))
@@ -605,13 +626,27 @@ func handleBatchWriteRequestError(table string, req types.WriteRequest, unproces
 
 // TransactWriteItems mock response for dynamodb
 func (fd *Client) TransactWriteItems(ctx context.Context, input *dynamodb.TransactWriteItemsInput, opts ...func(*dynamodb.Options)) (*dynamodb.TransactWriteItemsOutput, error) {
-	if fd.forceFailureErr != nil {
+	if fd.failureErr() != nil {
 		return nil, ErrForcedFailure
 	}
 
 	//TODO: Implement transact write
 
 	return &dynamodb.TransactWriteItemsOutput{}, nil
+}
+
+func (fd *Client) failureErr() error {
+	fd.mu.Lock()
+	defer fd.mu.Unlock()
+
+	return fd.forceFailureErr
+}
+
+func (fd *Client) getItemCollectionMetrics() map[string][]types.ItemCollectionMetrics {
+	fd.mu.Lock()
+	defer fd.mu.Unlock()
+
+	return fd.itemCollectionMetrics
 }
 
 func (fd *Client) getTable(tableName string) (*core.Table, error) {
